@@ -1,0 +1,44 @@
+//go:build verif
+// +build verif
+
+package websocket
+
+import "net"
+
+// Only built with the verif tag; used by the model-based checks in /verif.
+
+// VerifNewConn creates a connection of the given role over an arbitrary
+// net.Conn, without the opening handshake. With compress set, per-message
+// compression is negotiated as the handshake code does.
+func VerifNewConn(conn net.Conn, isServer bool, readBufferSize, writeBufferSize int, compress bool) *Conn {
+	c := newConn(conn, isServer, readBufferSize, writeBufferSize)
+	if compress {
+		c.newCompressionWriter = compressNoContextTakeover
+		c.newDecompressionReader = decompressNoContextTakeover
+	}
+	return c
+}
+
+// VerifReadState is the projection of the reader's frame state.
+type VerifReadState struct {
+	Remaining int64
+	Final     bool
+	Length    int64
+	Limit     int64
+	Failed    bool
+}
+
+// VerifReadState reports the reader's frame state.
+func (c *Conn) VerifReadState() VerifReadState {
+	return VerifReadState{
+		Remaining: c.readRemaining, Final: c.readFinal, Length: c.readLength,
+		Limit: c.readLimit, Failed: c.readErr != nil,
+	}
+}
+
+// VerifWriteErr reports the sticky write error.
+func (c *Conn) VerifWriteErr() error {
+	c.writeErrMu.Lock()
+	defer c.writeErrMu.Unlock()
+	return c.writeErr
+}
